@@ -1097,6 +1097,13 @@ impl<'a> Visitor<'a, '_, Error> for JSONValidator<'a> {
           choice_validation_succeeded = true;
         }
 
+        // Prioritized choice: the first alternative that validates decides.
+        // Validating the remaining ones as well cannot change the result, and
+        // doubles the work per nesting level ([* ([* a] / [* a])])
+        if choice_validation_succeeded {
+          return Ok(());
+        }
+
         continue;
       }
 
